@@ -87,4 +87,23 @@ v("c02-n-return-ok", "C02", "none", [(TXN, "\t\tres, err := handleTxnOps(ctx, su
 v("c02-n-greater-gt0", "C02", "none", [(TXN, "cmpValue = bytes.Compare(value, cmp.GetValue()) == 1", "cmpValue = bytes.Compare(value, cmp.GetValue()) > 0")])
 v("c02-n-less-swapped-consistently", "C02", "none", [(TXN, "cmpValue = bytes.Compare(value, cmp.GetValue()) == -1", "cmpValue = bytes.Compare(cmp.GetValue(), value) == 1")])
 
+# ---------------- C03 ----------------
+SNAP = "storage/table/fsm/snapshot_snapshot.go"; CKP = "storage/table/fsm/snapshot_checkpoint.go"
+v("c03-f5-parent", "C03", "C03.b", [(CMD, "\tif cmd.LeaderIndex != nil {\n\t\tc.leaderIndex = cmd.LeaderIndex\n\t}", "\tc.leaderIndex = cmd.LeaderIndex")], "parent of fix F5")
+v("c03-first-entry-wins", "C03", "C03.b", [(CMD, "\tif cmd.LeaderIndex != nil {\n\t\tc.leaderIndex", "\tif c.leaderIndex == nil {\n\t\tc.leaderIndex")])
+v("c03-clock-in-value", "C03", "C03.a", [(PUT, "import (\n\t\"github.com/jamf/regatta/regattapb\"\n)", "import (\n\t\"time\"\n\n\t\"github.com/jamf/regatta/regattapb\"\n)"), (PUT, "ctx.batch.Set(keyBuf.Bytes(), put.Value, nil)", "ctx.batch.Set(keyBuf.Bytes(), append(put.Value, byte(time.Now().Unix())), nil)")])
+v("c03-nodeid-in-result", "C03", "C03.a", [(FSM, "updates[i].Result.Value = uint64(updateResult)", "updates[i].Result.Value = uint64(updateResult) + p.nodeID*0")])
+v("c03-revision-plus-one", "C03", "C03.c", [("storage/table/fsm/command_dummy.go", "Revision: ctx.index}, nil", "Revision: ctx.index + 1}, nil")])
+v("c03-no-flush-before-checkpoint", "C03", "C03.e", [(CKP, "\tif err := db.Flush(); err != nil {\n\t\treturn nil, err\n\t}\n\tdir := path.Join", "\tdir := path.Join")])
+v("c03-sst-saver-skips-system-keys", "C03", "C03.e", [(SNAP, "\t\t\tif err := sstWriter.Set(iter.Key(), iter.Value()); err != nil {", "\t\t\tif iter.Key()[4] == 2 {\n\t\t\t\tcontinue\n\t\t\t}\n\t\t\tif err := sstWriter.Set(iter.Key(), iter.Value()); err != nil {")])
+v("c03-sst-saver-bounded", "C03", "C03.e", [(SNAP, "iter := snapshot.NewIter(nil)", "iter := snapshot.NewIter(&pebble.IterOptions{UpperBound: maxUserKey})")])
+v("c03-ensure-indexed-drops-old", "C03", "C03.d", [(CMD, "\tif err := indexed.Apply(c.batch, nil); err != nil {\n\t\treturn err\n\t}\n", "")])
+v("c03-n-timing-log", "C03", "none", [(FSM, "\t\"sync/atomic\"\n", "\t\"sync/atomic\"\n\t\"time\"\n"), (FSM, "\tdb := p.pebble.Load()\n\n\tctx := &updateContext{", "\tstart := time.Now()\n\tdefer func() { p.log.Debugf(\"update took %s\", time.Since(start)) }()\n\tdb := p.pebble.Load()\n\n\tctx := &updateContext{")])
+v("c03-n-guard-via-local", "C03", "none", [(CMD, "\tif cmd.LeaderIndex != nil {\n\t\tc.leaderIndex = cmd.LeaderIndex\n\t}", "\tif li := cmd.LeaderIndex; li != nil {\n\t\tc.leaderIndex = li\n\t}")])
+
+v("c01-n-seekge-with-equal", "C01", "none", [(QRY, "\tfound := iter.SeekPrefixGE(keyBuf.Bytes())\n\tif !found {", "\tfound := iter.SeekGE(keyBuf.Bytes())\n\tif !found || !bytes.Equal(iter.Key(), keyBuf.Bytes()) {"), (QRY, "import (\n\t\"encoding/binary\"", "import (\n\t\"bytes\"\n\t\"encoding/binary\"")])
+v("c01-seekge-hasprefix", "C01", "C01.g", [(QRY, "\tfound := iter.SeekPrefixGE(keyBuf.Bytes())\n\tif !found {", "\tfound := iter.SeekGE(keyBuf.Bytes())\n\tif !found || !bytes.HasPrefix(iter.Key(), keyBuf.Bytes()) {"), (QRY, "import (\n\t\"encoding/binary\"", "import (\n\t\"bytes\"\n\t\"encoding/binary\"")], "agent mutant C01-m2 in essence")
+v("c01-bounds-alias-pooled-buffer", "C01", "C01.g", [(ITER, "\t\titerOptions.UpperBound = make([]byte, highBuf.Len())\n\t\tcopy(iterOptions.UpperBound, highBuf.Bytes())", "\t\titerOptions.UpperBound = highBuf.Bytes()")], "agent mutant C09-m2 in essence")
+v("c09-bounds-alias-pooled-buffer", "C09", "C09.f", [(ITER, "\t\titerOptions.UpperBound = make([]byte, highBuf.Len())\n\t\tcopy(iterOptions.UpperBound, highBuf.Bytes())", "\t\titerOptions.UpperBound = highBuf.Bytes()")], "agent mutant C09-m2 in essence")
+
 json.dump(V, sys.stdout, indent=1)
